@@ -188,6 +188,60 @@ func registerTLSAndReady() {
 		Quick: 2, Thor: 3,
 	})
 
+	// ---------------------------------------------------------------- more transports and combinations
+	regSpec(&Spec{
+		Name: "pipe3-three-writers", Props: []string{"C05", "C06"},
+		Conns: []ConnSpec{{
+			Ops:    []string{"search", "search", "search"},
+			H:      map[int]*HSpec{1: {WaitStarted: 3, Frames: []int{10}}, 2: {WaitStarted: 3, Frames: []int{5000}}, 3: {WaitStarted: 3}},
+			Expect: 5,
+		}},
+		Quick: 2, Thor: 3,
+	})
+	regSpec(&Spec{
+		Name: "pipe2-tls-listener", Props: []string{"C05", "C08", "C18"},
+		Srv: SrvOpts{TLS: getPKI().ServerCfg},
+		Conns: []ConnSpec{{
+			TLS: "listener", Ops: []string{"bind", "search"},
+			H:      map[int]*HSpec{1: {WaitStarted: 2}, 2: {WaitStarted: 2, Frames: []int{5000}}},
+			Expect: 3,
+		}},
+		Quick: 2, Thor: 3,
+	})
+	regSpec(&Spec{
+		Name: "end-tls-listener-unbind", Props: []string{"C08", "C10"},
+		Srv:   SrvOpts{TLS: getPKI().ServerCfg},
+		Conns: []ConnSpec{{TLS: "listener", Ops: []string{"search", "unbind", "bind"}, H: map[int]*HSpec{1: {Yields: 1}}, Read: "all"}},
+		Quick: 2, Thor: 3,
+	})
+	regSpec(&Spec{
+		Name: "end-starttls-then-client-close", Props: []string{"C08", "C13"},
+		Conns: []ConnSpec{{Ops: []string{"starttls", "search"}, H: map[int]*HSpec{2: {Frames: []int{5000}}}, Expect: 3}},
+		Check: startTLSCheck(1), Quick: 2, Thor: 3,
+	})
+	regSpec(&Spec{
+		Name: "two-conns-ending-together", Props: []string{"C08", "C09"},
+		Conns: []ConnSpec{
+			{Ops: []string{"search"}, H: map[int]*HSpec{1: {Yields: 1}}, Expect: 1},
+			{Ops: []string{"bind", "unbind"}, Read: "all"},
+		},
+		Quick: 2, Thor: 3,
+	})
+	for _, pr := range []struct {
+		name string
+		a, b ConnSpec
+		srv  SrvOpts
+	}{
+		{"idle+half-frame", ConnSpec{Ops: []string{"bind"}, Expect: 1, End: "stay"}, ConnSpec{End: "half"}, SrvOpts{}},
+		{"idle+pipelining", ConnSpec{End: "stay"}, ConnSpec{Ops: []string{"search", "search"}, Segs: []int{1, 1}, Read: "all"}, SrvOpts{}},
+		{"tls-hello-pending+tls-idle", ConnSpec{TLS: "listener-nohello", End: "stay"}, ConnSpec{TLS: "listener", Ops: []string{"bind"}, Expect: 1, End: "stay"}, SrvOpts{TLS: getPKI().ServerCfg}},
+	} {
+		regSpec(&Spec{
+			Name: "stop-with-" + pr.name, Props: []string{"C11"}, Srv: pr.srv,
+			Conns: []ConnSpec{pr.a, pr.b}, ClientsIdle: true, StopWhen: "note:c1-done", Quick: 2, Thor: 3,
+		})
+	}
+
 	// ---------------------------------------------------------------- C18: TLS gatekeeping (schedules)
 	p := getPKI()
 	type beh struct {
@@ -428,7 +482,47 @@ func registerTLSAndReady() {
 			}})
 		}
 	}
-	_ = strings.Contains
+	// two requests of two clients served concurrently by the directory's own handlers
+	pairs := [][2]int{{5, 2}, {5, 4}, {6, 2}, {7, 2}, {5, 0}, {6, 6}, {5, 5}}
+	for _, pr := range pairs {
+		ra, rb := reqs[pr[0]], reqs[pr[1]]
+		reg(&Scn{Name: "dir-" + ra.name + "-vs-" + rb.name, Props: []string{"C15"}, Quick: 2, Thor: 3, Body: func() {
+			w := NewWorld()
+			curSpec = nil
+			t := &harnessT{}
+			logger := hclog.New(&hclog.LoggerOptions{Level: hclog.Off, Output: w.LogBuf})
+			users := testdirectory.NewUsers(t, []string{"alice", "bob"})
+			groups := []*gldap.Entry{testdirectory.NewGroup(t, "admin", []string{"alice"})}
+			d := testdirectory.VNew(t, logger, testdirectory.WithDefaults(t, &testdirectory.Defaults{Users: users, Groups: groups}))
+			mux, err := d.VMux()
+			if err != nil {
+				panic(err)
+			}
+			srv, _ := gldap.NewServer(gldap.WithLogger(logger))
+			_ = srv.Router(mux)
+			w.Srv, w.Addr = srv, defaultAddr
+			w.GoRun(SrvOpts{})
+			done := 0
+			for i, rq := range []struct {
+				name string
+				b    func() []byte
+			}{ra, rb} {
+				rq := rq
+				vrt.GoNamed(fmt.Sprintf("c%d", i+1), func() {
+					defer func() { done++ }()
+					cl := w.Dial(fmt.Sprintf("c%d", i+1), 0)
+					_ = cl.Send(rq.b())
+					cl.ReadFrames(1)
+					if strings.HasPrefix(rq.name, "search") {
+						cl.ReadFrames(2)
+					}
+					cl.Close()
+				})
+			}
+			vrt.WaitUntil("done", func() bool { return done == 2 })
+			w.Stop()
+		}})
+	}
 }
 
 type harnessT struct{ errs []string }
